@@ -10,6 +10,8 @@ Lemma facts_lookup_prog : lookup_prog = std_lookup Local true.
 Proof. reflexivity. Qed.
 Lemma facts_register_prog : register_prog = std_register Swap.
 Proof. reflexivity. Qed.
+Lemma facts_register_prog_fallback : register_prog_fallback = register_prog.
+Proof. reflexivity. Qed.
 
 Lemma upd_same {A} (f : nat -> A) i a : upd f i a i = a.
 Proof. unfold upd. rewrite Nat.eqb_refl. reflexivity. Qed.
